@@ -157,7 +157,7 @@ class ExprMixin:
     # ---- operators
     def ex_BoolOp(self, e, fr):
         is_and = isinstance(e.op, ast.And)
-        saved = len(self.run.pc)
+        saved = len(self.run.ctx)
         vals, conds = [], []
         try:
             for i, x in enumerate(e.values):
@@ -169,9 +169,9 @@ class ExprMixin:
                     if (is_and and z3.is_false(c)) or ((not is_and) and z3.is_true(c)):
                         break
                     # later operands are evaluated only if this one is truthy (and) / falsy (or)
-                    self.run.pc.append(c if is_and else z3.Not(c))
+                    self.run.ctx.append(c if is_and else z3.Not(c))
         finally:
-            del self.run.pc[saved:]
+            del self.run.ctx[saved:]
         # result value: first falsy (and) / first truthy (or), else last
         res = vals[-1]
         for v, c in reversed(list(zip(vals[:-1], conds))):
@@ -261,16 +261,16 @@ class ExprMixin:
     def ex_Compare(self, e, fr):
         left = self.eval(e.left, fr)
         res = None
-        saved = len(self.run.pc)
+        saved = len(self.run.ctx)
         try:
             for op, rx in zip(e.ops, e.comparators):
                 right = self.eval(rx, fr)
                 c = self.compare(op, left, right, e.lineno)
                 res = c if res is None else z3.And(res, c)
-                self.run.pc.append(c)
+                self.run.ctx.append(c)
                 left = right
         finally:
-            del self.run.pc[saved:]
+            del self.run.ctx[saved:]
         return VBool(res)
 
     def compare(self, op, a, b, lineno=0):
@@ -388,15 +388,15 @@ class ExprMixin:
             return self.eval(e.body, fr)
         if z3.is_false(cs):
             return self.eval(e.orelse, fr)
-        saved = len(self.run.pc)
+        saved = len(self.run.ctx)
         try:
-            self.run.pc.append(cs)
+            self.run.ctx.append(cs)
             a = self.eval(e.body, fr)
-            del self.run.pc[saved:]
-            self.run.pc.append(z3.Not(cs))
+            del self.run.ctx[saved:]
+            self.run.ctx.append(z3.Not(cs))
             b = self.eval(e.orelse, fr)
         finally:
-            del self.run.pc[saved:]
+            del self.run.ctx[saved:]
         try:
             return merge(cs, a, b)
         except Unsupported:
@@ -507,6 +507,10 @@ class ExprMixin:
         if isinstance(obj, VStr) or (isinstance(obj, VList) and obj.seq is not None):
             t = obj.t if isinstance(obj, VStr) else obj.seq
             n = z3.Length(t)
+            clo = None if lo is None else concrete_of(lo)
+            if hi is None and isinstance(clo, int) and clo >= 0:
+                r = z3.SubSeq(t, z3.IntVal(clo), n - clo) if not isinstance(obj, VStr) else z3.SubString(t, z3.IntVal(clo), n - clo)
+                return VStr(r, is_bytes=obj.is_bytes) if isinstance(obj, VStr) else VList(obj.elem, seq=r)
             lo_t = z3.IntVal(0) if lo is None else self._clamp(self._norm_index(coerce(lo, Int).t, n), n)
             hi_t = n if hi is None else self._clamp(self._norm_index(coerce(hi, Int).t, n), n)
             ln = z3.If(hi_t > lo_t, hi_t - lo_t, z3.IntVal(0))
@@ -614,18 +618,18 @@ class ExprMixin:
             for x in items:
                 self.assign_target(g.target, x, sub)
                 ok = z3.BoolVal(True)
-                saved = len(self.run.pc)
+                saved = len(self.run.ctx)
                 try:
                     for cnd in g.ifs:
                         c = truthy(self.eval(cnd, sub))
                         ok = z3.And(ok, c)
-                        self.run.pc.append(c)
+                        self.run.ctx.append(c)
                     oks = simp(ok)
                     if z3.is_false(oks):
                         continue
                     val = self.eval(e.elt, sub)
                 finally:
-                    del self.run.pc[saved:]
+                    del self.run.ctx[saved:]
                 if z3.is_true(oks):
                     out.append((None, val))
                 else:
@@ -678,66 +682,79 @@ class ExprMixin:
         return VList(elem, items=vals)
 
     def _comp_recfun(self, e, g, it: VList, fr):
-        """mapfilter over a z3 sequence as a memoised RecFunction keyed by the body's term structure."""
+        """mapfilter over a z3 sequence as a memoised, closure-converted RecFunction."""
         from .ex import Frame
         elem = it.elem
         x = z3.Const(f"cx!{_mangle_sort(elem)}", elem.sort())
         sub = Frame(fr.module, fr.func, parent=fr, is_spec=fr.is_spec)
         sub.contract = fr.contract
         xv = elem.wrap(x)
-        self.assign_target(g.target, xv, sub)
         self.merge_depth += 1
-        saved = len(self.run.pc)
+        saved = len(self.run.ctx)
         try:
+            self.on_element(it, xv)
+            self.assign_target(g.target, xv, sub)
             ok = z3.BoolVal(True)
             for cnd in g.ifs:
                 c = truthy(self.eval(cnd, sub))
                 ok = z3.And(ok, c)
-                self.run.pc.append(c)
+                self.run.ctx.append(c)
             val = self.eval(e.elt, sub)
         finally:
-            del self.run.pc[saved:]
+            del self.run.ctx[saved:]
             self.merge_depth -= 1
         from .ex import _type_of_value
         oty = _type_of_value(val)
         body_val = oty.pack(val)
         ok = simp(ok)
-        key = ("mapfilter", elem.name, oty.name, body_val.sexpr(), ok.sexpr())
-        if key not in self.recfuns:
-            isort, osort = z3.SeqSort(elem.sort()), z3.SeqSort(oty.sort())
-            f = z3.RecFunction(fresh_name("mapfilter"), isort, osort)
+        f, caps = self._gen_recfun("mapfilter", elem, x, [body_val, ok], oty)
+        return VList(oty, seq=f(it.seq, *caps))
+
+    def _gen_recfun(self, kind, elem, x, terms, oty=None):
+        """Memoised recursive function over Seq(elem); free constants of `terms` become extra parameters so
+        that the same comprehension text denotes the same function in code, in specs and inside spec functions."""
+        caps = []
+        seen = set()
+        for t in terms:
+            for c in _free_consts(t):
+                if c.eq(x) or c.get_id() in seen:
+                    continue
+                seen.add(c.get_id())
+                caps.append(c)
+        holes = [z3.Const(f"cap!{i}!{_mangle_name(c.sort().name())}", c.sort()) for i, c in enumerate(caps)]
+        abst = [z3.substitute(t, *zip(caps, holes)) if caps else t for t in terms]
+        key = (kind, elem.name, oty.name if oty else "", tuple(t.sexpr() for t in abst))
+        if key not in RECFUNS:
+            isort = z3.SeqSort(elem.sort())
+            if kind == "mapfilter":
+                rs = z3.SeqSort(oty.sort())
+            elif kind == "count":
+                rs = z3.IntSort()
+            else:
+                rs = z3.BoolSort()
+            f = z3.RecFunction(fresh_name(kind), isort, *[h.sort() for h in holes], rs)
             s = z3.Const(f"cs!{_mangle_sort(elem)}", isort)
             head = s[0]
             tail = z3.SubSeq(s, 1, z3.Length(s) - 1)
-            hv = z3.substitute(body_val, (x, head))
-            hok = z3.substitute(ok, (x, head))
-            z3.RecAddDefinition(f, [s], z3.If(z3.Length(s) == 0, z3.Empty(osort),
-                                             z3.Concat(z3.If(hok, z3.Unit(hv), z3.Empty(osort)), f(tail))))
-            self.recfuns[key] = f
-        return VList(oty, seq=self.recfuns[key](it.seq))
+            inst = [z3.substitute(t, (x, head)) for t in abst]
+            rec = f(tail, *holes)
+            if kind == "mapfilter":
+                hv, hok = inst
+                body = z3.If(z3.Length(s) == 0, z3.Empty(rs), z3.Concat(z3.If(hok, z3.Unit(hv), z3.Empty(rs)), rec))
+            elif kind == "any":
+                body = z3.And(z3.Length(s) > 0, z3.Or(inst[0], rec))
+            elif kind == "all":
+                body = z3.Or(z3.Length(s) == 0, z3.And(inst[0], rec))
+            else:
+                body = z3.If(z3.Length(s) == 0, z3.IntVal(0), z3.If(inst[0], 1, 0) + rec)
+            z3.RecAddDefinition(f, [s] + holes, body)
+            RECFUNS[key] = f
+        return RECFUNS[key], caps
 
     def seq_pred_recfun(self, kind, it: VList, x, pred):
         """any/all/count of `pred` (z3 Bool over bound constant x) on a z3 sequence."""
-        elem = it.elem
-        pred = simp(pred)
-        key = (kind, elem.name, pred.sexpr())
-        if key not in self.recfuns:
-            isort = z3.SeqSort(elem.sort())
-            rs = z3.IntSort() if kind == "count" else z3.BoolSort()
-            f = z3.RecFunction(fresh_name(kind), isort, rs)
-            s = z3.Const(f"cs!{_mangle_sort(elem)}", isort)
-            head = s[0]
-            tail = z3.SubSeq(s, 1, z3.Length(s) - 1)
-            hp = z3.substitute(pred, (x, head))
-            if kind == "any":
-                body = z3.And(z3.Length(s) > 0, z3.Or(hp, f(tail)))
-            elif kind == "all":
-                body = z3.Or(z3.Length(s) == 0, z3.And(hp, f(tail)))
-            else:
-                body = z3.If(z3.Length(s) == 0, z3.IntVal(0), z3.If(hp, 1, 0) + f(tail))
-            z3.RecAddDefinition(f, [s], body)
-            self.recfuns[key] = f
-        return self.recfuns[key](it.seq)
+        f, caps = self._gen_recfun(kind, it.elem, x, [simp(pred)])
+        return f(it.seq, *caps)
 
     def ex_Starred(self, e, fr):
         raise Unsupported("starred expression")
@@ -747,6 +764,29 @@ class ExprMixin:
 
     def ex_Yield(self, e, fr):
         raise Unsupported("yield")
+
+
+RECFUNS: dict = {}  # z3 RecFunctions live in the global context: one table per process
+
+
+def _mangle_name(n):
+    return "".join(c if c.isalnum() else "_" for c in n)
+
+
+def _free_consts(t):
+    out, seen, todo = [], set(), [t]
+    while todo:
+        e = todo.pop()
+        if e.get_id() in seen:
+            continue
+        seen.add(e.get_id())
+        if z3.is_const(e) and e.decl().kind() == z3.Z3_OP_UNINTERPRETED:
+            out.append(e)
+        elif z3.is_app(e):
+            todo.extend(reversed(e.children()))
+        elif z3.is_quantifier(e):
+            todo.append(e.body())
+    return out
 
 
 def _mangle_sort(elem):
